@@ -138,6 +138,13 @@ func frzFresh(v ssa.Value, seen map[ssa.Value]bool, depth int) bool {
 		return len(x.Edges) > 0
 	case *ssa.ChangeType:
 		return frzFresh(x.X, seen, depth+1)
+	case *ssa.FieldAddr:
+		if _, ok := x.X.(*ssa.Alloc); ok {
+			return true // address inside a local/fresh struct
+		}
+		if fa, ok := x.X.(*ssa.FieldAddr); ok {
+			return frzFresh(fa, seen, depth+1)
+		}
 	case *ssa.Parameter:
 		// one level interprocedural: fresh when every call site passes a fresh argument
 		if frzProg == nil {
